@@ -16,6 +16,14 @@ Client program (one handle and one iterator per thread; a thread is a sequence o
 `der` (`*it`), `rel` (destroy the handle), `push front emplace v`, `erase adv` (`it = h->erase(it)`, or with the result dropped), and
 finally `dtor` (list destructor; client obligation: no live handle).
 
+`erase` allocates and constructs its zombie record BEFORE it flags / unlinks the node (so that a failing allocation
+leaves the list untouched), then unlinks, then publishes the record on the log.
+
+Allocation failures: the allocator may throw instead of allocating (`afl true` for a log record, `afl false` for a node) —
+at the lazy registration of a handle (`call k, afl, exc k`: nothing happened, the handle is still unregistered), in
+`push_* / emplace_*` under the mutex (`mlk, afl, mul, exc`) and in `erase` right after the `deleted` flag has been read
+(`… pldDel, afl, mul, exc`): in all three cases nothing has been changed when the exception reaches the client.
+
 The model does NOT check the allocation ledger or liveness of the blocks it touches: the ledger
 (`nled`, `rled`) is ghost state updated by `alo / con / des / fre`, and the theorems (C13, C05) state
 that every accepted `des / fre / access` hits a block in the right ledger state.
@@ -77,6 +85,7 @@ inductive Ev
   | call (k : Op) | ret (k : Op) | exc (k : Op)
   | mlk | mul
   | alo (z : Bool) (id : Nat)                -- z: log record (`Z id`), else node (`N id`)
+  | afl (z : Bool)                            -- the allocator throws instead of allocating a record / a node
   | conN (n : Nat) (v : Int)
   | conR (r : Nat) (owner : Option Tid) (zn : Option Nat)
   | des (z : Bool) (id : Nat)
@@ -114,6 +123,7 @@ inductive Pc
   | pCons (k : Op) (n : Nat)
   | pThrown (k : Op)
   | pExc (k : Op)
+  | rExc (k : Op)                             -- the registration's allocation failed
   | pLoad (k : Op) (n : Nat)
   | pE1 (k : Op) (n : Nat)
   | pE2 (k : Op) (n : Nat)
@@ -127,13 +137,13 @@ inductive Pc
   -- erase
   | eOrig (c : Nat) (adv : Bool)
   | eDel (c : Nat) (orig : Option Nat)
-  | eMark (c : Nat) (orig : Option Nat)
-  | eBack (c : Nat) (orig : Option Nat)
-  | eNext (c : Nat) (orig p : Option Nat)
-  | eUnl (c : Nat) (orig p x : Option Nat)
-  | eFix (c : Nat) (orig p x : Option Nat)
   | eAlloc (c : Nat) (orig : Option Nat)
   | eCons (c : Nat) (orig : Option Nat) (z : Nat)
+  | eMark (c : Nat) (orig : Option Nat) (z : Nat)
+  | eBack (c : Nat) (orig : Option Nat) (z : Nat)
+  | eNext (c : Nat) (orig p : Option Nat) (z : Nat)
+  | eUnl (c : Nat) (orig p x : Option Nat) (z : Nat)
+  | eFix (c : Nat) (orig p x : Option Nat) (z : Nat)
   | eZh (orig : Option Nat) (z : Nat)
   | eUnlock (orig : Option Nat)
   -- ~rcu_list
@@ -265,6 +275,8 @@ def step (s : St) (t : Tid) (e : Ev) : Option St :=
         match k, e with
         | .beg, .alo true r => if r = s.nR then some ({ s with nR := s.nR + 1 }.setRled r .alloc |>.setPc t (.regAlloc k r)) else none
         | .push _ _ _, .alo true r => if r = s.nR then some ({ s with nR := s.nR + 1 }.setRled r .alloc |>.setPc t (.regAlloc k r)) else none
+        | .beg, .afl true => some (s.setPc t (.rExc k))
+        | .push _ _ _, .afl true => some (s.setPc t (.rExc k))
         | _, _ => none
       | .reg w _ =>
         match k, e with
@@ -373,6 +385,7 @@ def step (s : St) (t : Tid) (e : Ev) : Option St :=
   | .pAlloc k =>
     match e with
     | .alo false n => if n = s.nN then some ({ s with nN := s.nN + 1 }.setNled n .alloc |>.setPc t (.pCons k n)) else none
+    | .afl false => some (s.setPc t (.pThrown k))
     | _ => none
   | .pCons k n =>
     match k with
@@ -393,6 +406,10 @@ def step (s : St) (t : Tid) (e : Ev) : Option St :=
     | .mul => if s.wmtx = some t then some ({ s with wmtx := none }.setPc t (.pExc k)) else none
     | _ => none
   | .pExc k =>
+    match e with
+    | .exc k' => if k' = k then some (s.setPc t .idle) else none
+    | _ => none
+  | .rExc k =>
     match e with
     | .exc k' => if k' = k then some (s.setPc t .idle) else none
     | _ => none
@@ -469,56 +486,59 @@ def step (s : St) (t : Tid) (e : Ev) : Option St :=
     match e with
     | .pldDel c' d =>
         if c' = c ∧ d = (s.nodes c).deleted then
-          some (s.setPc t (if d = true then .eUnlock orig else .eMark c orig))
+          some (s.setPc t (if d = true then .eUnlock orig else .eAlloc c orig))
         else none
     | _ => none
-  | .eMark c orig =>
-    match e with
-    | .pstDel c' true => if c' = c then some ((s.setDel c true).setPc t (.eBack c orig)) else none
-    | _ => none
-  | .eBack c orig =>
-    match e with
-    | .ald (.nback c') o v => if c' = c ∧ o.isSc = true ∧ v = (s.nodes c).back then some (s.setPc t (.eNext c orig v)) else none
-    | _ => none
-  | .eNext c orig p =>
-    match e with
-    | .ald (.nnext c') o v => if c' = c ∧ o.isSc = true ∧ v = (s.nodes c).next then some (s.setPc t (.eUnl c orig p v)) else none
-    | _ => none
-  | .eUnl c orig p x =>
-    match p with
-    | some pp =>
-      match e with
-      | .ast (.nnext p') o v =>
-          if p' = pp ∧ o.isSc = true ∧ v = x then
-            some ({ (s.setNext pp x) with lst := s.lst.erase c }.setPc t (.eFix c orig p x)) else none
-      | _ => none
-    | none =>
-      match e with
-      | .ast .head o v =>
-          if o.isSc = true ∧ v = x then some ({ s with head := x, lst := s.lst.erase c }.setPc t (.eFix c orig p x)) else none
-      | _ => none
-  | .eFix c orig p x =>
-    match x with
-    | some xx =>
-      match e with
-      | .ast (.nback x') o v => if x' = xx ∧ o.isSc = true ∧ v = p then some ((s.setBack xx p).setPc t (.eAlloc c orig)) else none
-      | _ => none
-    | none =>
-      match e with
-      | .ast .tail o v => if o.isSc = true ∧ v = p then some ({ s with tail := p }.setPc t (.eAlloc c orig)) else none
-      | _ => none
+  -- the zombie record is allocated and constructed before the list is touched; if the allocation throws, erase leaves
+  -- through its lock_guard with nothing changed
   | .eAlloc c orig =>
     match e with
     | .alo true z => if z = s.nR then some ({ s with nR := s.nR + 1 }.setRled z .alloc |>.setPc t (.eCons c orig z)) else none
+    | .afl true => some (s.setPc t (.pThrown (.erase true)))
     | _ => none
   | .eCons c orig z =>
     match e with
     | .pstZn z' false => if z' = z then some s else none
     | .conR z' none (some c') =>
         if z' = z ∧ c' = c then
-          some ({ s with recs := upd s.recs z { next := none, owner := none, znode := some c } }.setRled z .cons |>.setPc t (.eZh orig z))
+          some ({ s with recs := upd s.recs z { next := none, owner := none, znode := some c } }.setRled z .cons |>.setPc t (.eMark c orig z))
         else none
     | _ => none
+  | .eMark c orig z =>
+    match e with
+    | .pstDel c' true => if c' = c then some ((s.setDel c true).setPc t (.eBack c orig z)) else none
+    | _ => none
+  | .eBack c orig z =>
+    match e with
+    | .ald (.nback c') o v => if c' = c ∧ o.isSc = true ∧ v = (s.nodes c).back then some (s.setPc t (.eNext c orig v z)) else none
+    | _ => none
+  | .eNext c orig p z =>
+    match e with
+    | .ald (.nnext c') o v => if c' = c ∧ o.isSc = true ∧ v = (s.nodes c).next then some (s.setPc t (.eUnl c orig p v z)) else none
+    | _ => none
+  | .eUnl c orig p x z =>
+    match p with
+    | some pp =>
+      match e with
+      | .ast (.nnext p') o v =>
+          if p' = pp ∧ o.isSc = true ∧ v = x then
+            some ({ (s.setNext pp x) with lst := s.lst.erase c }.setPc t (.eFix c orig p x z)) else none
+      | _ => none
+    | none =>
+      match e with
+      | .ast .head o v =>
+          if o.isSc = true ∧ v = x then some ({ s with head := x, lst := s.lst.erase c }.setPc t (.eFix c orig p x z)) else none
+      | _ => none
+  | .eFix c orig p x z =>
+    match x with
+    | some xx =>
+      match e with
+      | .ast (.nback x') o v => if x' = xx ∧ o.isSc = true ∧ v = p then some ((s.setBack xx p).setPc t (.eZh orig z)) else none
+      | _ => none
+    | none =>
+      match e with
+      | .ast .tail o v => if o.isSc = true ∧ v = p then some ({ s with tail := p }.setPc t (.eZh orig z)) else none
+      | _ => none
   | .eZh orig z =>
     match e with
     | .ald .zhead _ v => some (s.setPc t (.pushStore (.erase orig) z v))
